@@ -14,8 +14,11 @@ Lexer side (`Abra.Lex`, the model of `tokenize_file`):
   (`Lexes`) the whole file has the same token kinds (`C29_comment_insertion_partial`).
 Parser side (`Abra.Pratt.parseList`, the model of `parse_delimited_list`):
 * `C29_separator_choice` — the items of a delimited list are the same whether they are separated by
-  the separator, by a newline, by either followed by any number of blank lines, with blank lines
-  before the first item and with an optional trailing separator.
+  the separator, by a newline, by either followed by any number of blank lines, and with blank lines
+  before the first item (a trailing separator before the closer is not covered by the statement).
+* `C29_toplevel_terminator`, `C29_stray_semicolon_rejected` — on the model of `parse_file`'s item loop
+  (`Abra.TopLevel`): the optional `;` directly behind an item never changes the verdict; a `;` anywhere
+  else is a diagnostic.
 -/
 namespace Abra.Lex
 
